@@ -287,7 +287,10 @@ let run_case (x : sx) : Stdlib.String.t =
                     | L (A "4" :: inner) -> RRec (plain inner)
                     | L l -> RPlain (plain l)
                     | _ -> failwith "bad step") steps in
-                  Buffer.add_string b (if chain_path ks = path then "\tKP=1" else "\tKP=0"));
+                  let text = match getf "nodollar", ks with
+                    | [A "1"], RPlain s0 :: rest -> chain_path0 s0 rest
+                    | _ -> chain_path ks in
+                  Buffer.add_string b (if text = path then "\tKP=1" else "\tKP=0"));
              if not (wf_node t) then Buffer.add_string b "\tWF=0";
              if not (acc_clean t) then Buffer.add_string b "\tWF=0";
              if not (ctext_ok t) then Buffer.add_string b "\tWF=0";
